@@ -59,7 +59,23 @@ class _O:
     def __setitem__(self, y, v): LOG.append(('setitem', '', (self, y, v), {}))
     def __delitem__(self, y): LOG.append(('delitem', '', (self, y), {}))
 O = _O()
+# --- mutable state (stream 'mutable' only): what a repeated load reads changes when `bump` is called in between
+class _Box:
+    def __init__(self):
+        self.n = 0
+B = _Box()
+L = [10, 20, 30]
+G = 0
+def bump(k):
+    global G
+    LOG.append(('call', 'bump', (k,), {}))
+    B.n += 1
+    L.insert(0, L[0] + 7)
+    L[1] = L[1] + 1
+    G += 3
+    return 2 * k + 1
 '''
+
 
 
 def make_namespace():
@@ -92,6 +108,8 @@ def canon_val(v, ns):
         return ['tuple', ['str', "'cm'"], canon_val(v.k, ns)]
     if isinstance(v, ns['_O']):
         return ['obj', 'O']
+    if isinstance(v, ns['_Box']):
+        return ['obj', 'B']
     if isinstance(v, BaseException):
         if isinstance(v, ns['Err']):
             return ['exc', 'Err', canon_val(v.args[0] if v.args else None, ns)]
@@ -650,6 +668,45 @@ class Gen:
         return '\n'.join(lines) + '\n'
 
 
+def mutable_program(rng):
+    """Statements in which the same call-free expression (attribute load, item load, operator over a variable) occurs
+    twice around a call that mutates what it reads, in tuples / call arguments / binary operators / subscripts.
+    All operands are flat, so the transformer's hoisting keeps their order; naming the two occurrences by ONE
+    temporary, or reading the second one early, changes the result."""
+    reads = ['B.n', 'L[0]', 'L[1]', '(G + 1)', '(-G)', '(G < 4)', '(B.n * 2)', '(L[0] - a)']
+    lines, k, t = [], 0, 0
+    feats = set()
+    for _ in range(rng.randint(2, 5)):
+        R = rng.choice(reads)
+        k += 1
+        t += 1
+        call = 'bump(%d)' % k
+        shape = rng.choice(['tuple', 'args', 'binop', 'subscript', 'compare', 'list', 'nested-tuple', 'lazy'])
+        feats.add('mutable-' + shape)
+        if shape == 'tuple':
+            lines.append('x%d = (%s, %s, %s)' % (t, R, call, R))
+        elif shape == 'args':
+            lines.append('x%d = tr(%d, %s, %s, %s)' % (t, 700 + t, R, call, R))
+        elif shape == 'binop':
+            lines.append('x%d = %s + %s + %s' % (t, R, call, R))
+        elif shape == 'subscript':
+            lines.append('x%d = O[%s, %s, %s]' % (t, R, call, R))
+        elif shape == 'compare':
+            lines.append('x%d = ((%s * %s) < %s) + b' % (t, R, call, R))
+        elif shape == 'list':
+            lines.append('x%d = [%s, %s, %s, %s]' % (t, R, call, R, rng.choice(reads)))
+        elif shape == 'nested-tuple':
+            lines.append('x%d = tr(%d, (%s, %s, %s))' % (t, 700 + t, R, call, R))
+        else:
+            # a lazy construct whose operand was already named earlier in the same statement: must still be rejected
+            lines.append('x%d = tr(%d, tr(%d, %s), %s)' % (t, 700 + t, 800 + t, R,
+                         rng.choice(['(%s if a else b)' % R, '(a and %s)' % R, '(b or %s)' % R])))
+        if rng.random() < 0.4:
+            lines.append('tr(%d, x%d)' % (900 + t, t))
+    lines.append('return (%s)' % ', '.join(['x%d' % i for i in range(1, t + 1)] + ['B.n', 'G']))
+    return 'def f(a, b):\n' + ''.join('    ' + l + '\n' for l in lines), feats
+
+
 INPUTS = [(0, 1), (2, -1), (5, 3)]
 
 # Hand-written programs: the DESIGN §8 witnesses and one per hazard class (always in the corpus).
@@ -664,6 +721,9 @@ FIXED = [
     ('temp-name', 'def f(a, b):\n    tmp_1001 = a + 7\n    return tr(1, tr(2, b), tmp_1001)\n'),
     ('temp-name-two-temps', 'def f(a, b):\n    tmp_1001 = a\n    return tr(1, tr(2, b), tr(3, tmp_1001))\n'),
     ('second-pass', 'def f(a, b):\n    tmp_1001 = tr(1, a)\n    tmp_1002 = tr(2, b)\n    return tr(3, tr(4, tmp_1001), tr(5, tmp_1002))\n'),
+    ('mutable-attr', 'def f(a, b):\n    return (B.n, bump(1), B.n)\n'),
+    ('mutable-item', 'def f(a, b):\n    return tr(1, L[0], bump(1), L[0])\n'),
+    ('mutable-global', 'def f(a, b):\n    return (G + 1) + bump(1) + (G + 1)\n'),
     ('dropped-pending', 'def f(a, b):\n    tr(1)\n    x: int = tr(2, tr(3))\n'),
     ('plain-1', 'def f(a, b):\n    x = tr(1, a + b, k=tr(2))\n    return tr(3, x * 2, O.yy)\n'),
     ('plain-2', 'def f(a, b):\n    for v in (tr(1), tr(2, a)):\n        if v < tr(3, v):\n            O[v] = b\n    return tr(4)\n'),
